@@ -1515,7 +1515,7 @@ impl Date {
             -1 => self.yesterday(),
             1 => self.tomorrow(),
             days => {
-                let days = UnixEpochDay::try_new("days", days).with_context(
+                let days = t::SpanDays::try_new("days", days).with_context(
                     || {
                         err!(
                             "{days} computed from duration {duration:?} \
@@ -1523,8 +1523,9 @@ impl Date {
                         )
                     },
                 )?;
-                let days =
-                    self.to_unix_epoch_day().try_checked_add("days", days)?;
+                let days = self
+                    .to_unix_epoch_day()
+                    .try_checked_add("days", UnixEpochDay::rfrom(days))?;
                 Ok(Date::from_unix_epoch_day(days))
             }
         }
